@@ -5,10 +5,12 @@ use std::time::{Duration, Instant};
 
 mod analyze;
 mod corpus;
+mod expand;
 mod expect;
 mod iter;
 mod parse;
 mod quote;
+mod replace;
 mod search;
 mod state_ops;
 
@@ -38,6 +40,8 @@ fn family(name: &str) -> Option<Box<dyn Family>> {
         "quote" => Some(Box::new(quote::Quote)),
         "parse" => Some(Box::new(parse::Parse)),
         "expect" => Some(Box::new(expect::Expect)),
+        "expand" => Some(Box::new(expand::Expand)),
+        "replace" => Some(Box::new(replace::Replace)),
         "search" => Some(Box::new(search::Search)),
         _ => None,
     }
